@@ -19,7 +19,15 @@ PROP = {
         "(<= 4 interfaces)",
         "HopPredicate::from_str total, accepted strings use only the predicate alphabet; Display . parse identity (bounded)",
     ],
-    "not_decided": [],
+    "not_decided": [
+        "hop-pattern semantics beyond the five depth-1 shapes a, a?, a+, a*, a|b (<= 3 hops): nested repetition, nullable bodies "
+        "under + and *, alternation with quantified arms, sequences of more than one top-level expression -- BTreeSet position "
+        "sets are intractable for CBMC (probe: >9 CPU-min / 5.7 GB for `(a|b?)+` with <= 2 hops); termination of the matcher is "
+        "likewise covered only for those shapes; the depth-1 harnesses are thorough-tier and admitted only if they discharge "
+        "within 10 min each",
+        "lexer / Pratt parser totality, `redundant parentheses and whitespace do not change meaning`: not under contract in this round",
+        "HopPredicate text round trip only for numeric fields < 10 (structure alphabet complete)",
+    ],
     "assumptions": [
         "call-site precondition of AclPolicy::matches: non-empty hop sequence (hops_from_path yields >= 2 hops; shown by "
         "c16_hops_from_path_b4 for <= 4 interfaces)",
@@ -31,7 +39,7 @@ PROP = {
         {
             "id": "acl", "engine": "verus", "overlay": "/verif/verus/acl.overlay",
             "what": "ACL first-match semantics, unbounded; predicate table",
-            "paired_kani": "c16_acl_first_match_b", "rlimit": 30, "timeout": 900,
+            "paired_kani": "c16_acl_first_match_e0..e3", "rlimit": 30, "timeout": 900,
             "anchors": [(ACL, ["impl AclPolicy {", "impl AclEntry {", "pub fn matches(&self, path: &[PathPolicyHop]) -> bool"]),
                         (TYPES, ["impl HopPredicate {", "impl InterfacesPredicate {", "impl InterfacePredicate {",
                                  "impl PathPolicyHop {"]),
@@ -53,14 +61,35 @@ PROP = {
                 H("c16_pred_interfaces", "P", what="InterfacesPredicate::matches: Any/Either/Both, interface 0 wildcard"),
                 H("c16_pred_hop", "P", what="PathPolicyHop::matches / HopPredicate::matches == documented table"),
                 H("c16_acl_entry", "P", what="AclEntry::matches"),
-                H("c16_acl_first_match_b", "B", bound="<= 3 entries, <= 4 hops, full predicate alphabet",
-                  what="bounded companion of the Verus ACL unit (concrete counterexamples)", timeout=1800),
+                H("c16_acl_first_match_e0", "B", bound="exactly 0 entries, 1..=4 hops, full predicate alphabet",
+                  what="bounded companion of the Verus ACL unit (concrete counterexamples)", timeout=1200),
+                H("c16_acl_first_match_e1", "B", bound="exactly 1 entries, 1..=4 hops, full predicate alphabet",
+                  what="bounded companion of the Verus ACL unit (concrete counterexamples)", timeout=1200),
+                H("c16_acl_first_match_e2", "B", bound="exactly 2 entries, 1..=4 hops, full predicate alphabet",
+                  what="bounded companion of the Verus ACL unit (concrete counterexamples)", timeout=1200),
+                H("c16_acl_first_match_e3", "B", bound="exactly 3 entries, 1..=4 hops, full predicate alphabet",
+                  what="bounded companion of the Verus ACL unit (concrete counterexamples)", timeout=1200),
                 H("c16_hops_from_path_no_metadata", "P", what="Err without metadata / interfaces"),
                 H("c16_hops_from_path_b4", "B", bound="<= 4 interfaces", what="hop extraction shape, first/last interface 0", timeout=1800),
                 H("c16_hop_pred_parse_n6", "B", bound="ASCII strings <= 6 bytes", what="HopPredicate::from_str total + alphabet", timeout=1800),
-                H("c16_hop_pred_display_parse_b", "B", bound="numeric fields < 10 (printed form <= 8 bytes), full structure alphabet",
-                  what="HopPredicate Display . parse", timeout=1800),
+                H("c16_hop_pred_display_parse_b", "B", tier="thorough", bound="numeric fields < 10 (printed form <= 8 bytes), full structure alphabet",
+                  what="HopPredicate Display . parse", timeout=3600),
                 H("c16_hop_pred_parse_n8", "B", tier="thorough", bound="ASCII strings <= 8 bytes", what="HopPredicate::from_str total + alphabet", timeout=3600),
+            ],
+        },
+        {
+            "id": "sciparse-hop-pattern", "engine": "kani", "package": "sciparse",
+            "crate_dir": "crates/libs/sciparse",
+            "module": "/verif/kani/sciparse/hop_pattern.rs",
+            "mod_path": "scion::path::policy::hop_pattern::verif_hop_pattern",
+            "hooks": [(HOPP, "mod verif_hop_pattern;")],
+            "anchors": [(HOPP, ["match_from", "all_nested_matches", "enum HopPatternExpression"])],
+            "functions": ["HopPatternExpression::match_from", "HopPatternExpression::all_nested_matches",
+                          "HopPatternPolicy::matches"],
+            "harnesses": [
+                H("c16_hp_shape_%s" % sh, "B", tier="thorough", bound="depth-1 shape `%s`, symbolic leaves, <= 3 hops" % txt,
+                  what="match_from == { q | hops[p..q] in L(e) } and HopPatternPolicy([e]).matches == (hops in L(e))", timeout=600)
+                for sh, txt in [("leaf", "a"), ("opt", "a?"), ("plus", "a+"), ("star", "a*"), ("or", "a|b")]
             ],
         },
     ],
